@@ -1,4 +1,4 @@
-from pedal.core.report import MAIN_REPORT
+from pedal.core.report import MAIN_REPORT, Report
 
 
 def make_resolver(func, report=None):
@@ -16,7 +16,12 @@ def make_resolver(func, report=None):
         report = MAIN_REPORT
 
     def resolver_wrapper(*args, **kwargs):
-        report.execute_hooks('pedal.resolvers', 'resolve')
+        # The hooks of the report that is being resolved (the resolvers take
+        # it as their first argument, or as ``report=``)
+        resolving = kwargs.get('report', args[0] if args else report)
+        if not isinstance(resolving, Report):
+            resolving = report
+        resolving.execute_hooks('pedal.resolvers', 'resolve')
         return func(*args, **kwargs)
 
     return resolver_wrapper
